@@ -9,6 +9,8 @@ import PhreeqcVerif.Model.GasPhase
     kij <hexname1> <hexname2> <k>                 one entry of `gas_binary_parameters`
     pr <iterations> <P> <TK> <Vm> <n> {<hexname> <moles>}*n      `calc_PR(phase_ptrs, P, TK, V_m)`
          -> R <vm> <bsum> <asum> {<x> <pr_p> <pr_phi> <pr_si_f>}*n   |   R early
+    prn <iterations> <volume> <TK> <n> {<hexname> <moles>}*n      `calc_PR()` of gases.cpp (numerical fixed-volume path)
+         -> R <vm> <bsum> <asum> {<x> <pr_p> <pr_phi> <pr_si_f>}*n <total_p>  |   R early
     eos <P> <TK> <Vm> <n> {<hexname> <moles>}*n   independent EOS evaluation for the relations on real runs
          -> E <P(Vm)> <Vm(P)> <disct(P)> <branch> {<x> <lnphi raw at (P,Vm)> <z-B>}*n
     ideal <n> <TK> <V>  -> I <P>
@@ -51,6 +53,19 @@ def doPR (st : St) (iter : Int) (p tk vm : Float) (pairs : List (String × Float
         else s!" {hx c.x} {hx c.p} {hx (Float.exp c.lnphi)} {hx (c.lnphi / ln10)}"
       s!"R {hx o.vm} {hx o.bsum} {hx o.asum}" ++ String.join cs
 
+def doPRN (st : St) (iter : Int) (vol tk : Float) (pairs : List (String × Float)) : String :=
+  match findGases st (pairs.map (·.1)) with
+  | none => "R unknown-gas"
+  | some gs =>
+    match calcPRnum st.tab (decide (iter > 0)) gs (pairs.map (·.2)) vol tk with
+    | none => "R early"
+    | some o =>
+      let ln10 : Float := Float.log 10.0
+      let cs := o.comps.map fun c =>
+        if isZero c.x then s!" {hx c.x} {hx 0.0} {hx 1.0} {hx 0.0}"
+        else s!" {hx c.x} {hx c.p} {hx (Float.exp c.lnphi)} {hx (c.lnphi / ln10)}"
+      s!"R {hx o.vm} {hx o.bsum} {hx o.asum}" ++ String.join cs ++ s!" {hx o.p}"
+
 def doEOS (st : St) (p tk vm : Float) (pairs : List (String × Float)) : String :=
   match findGases st (pairs.map (·.1)) with
   | none => "E unknown-gas"
@@ -83,6 +98,11 @@ def step (st : St) (line : String) : St × Option String :=
     match it.toInt?, floatOfHex p, floatOfHex tk, floatOfHex vm, parsePairs rest with
     | some it, some p, some tk, some vm, some pairs => (st, some (doPR st it p tk vm pairs))
     | _, _, _, _, _ => (st, some "bad-op")
+  | "prn" :: it :: vol :: tk :: _n :: rest =>
+    match it.toInt?, floatOfHex vol, floatOfHex tk, parsePairs rest with
+    | some it, some vol, some tk, some pairs => (st, some (doPRN st it vol tk pairs))
+    | _, _, _, _ => (st, some "bad-op")
+  | ["fresh"] => (st, none)
   | "eos" :: p :: tk :: vm :: _n :: rest =>
     match floatOfHex p, floatOfHex tk, floatOfHex vm, parsePairs rest with
     | some p, some tk, some vm, some pairs => (st, some (doEOS st p tk vm pairs))
